@@ -873,12 +873,13 @@ mismatch between values and axes""".format(inferred, self.values.shape)
         if not np.iterable(indices):
             raise TypeError("indices must be iterable")
 
-        if indexing == "label":
-            indices = ax.loc(indices, mode=mode)
-
-        # a boolean mask selects the slices where it is True (numpy.take would read True / False as the positions 1 / 0)
+        # a boolean mask (array or list of bools) selects the slices where it is True
+        # (numpy.take would read True / False as the positions 1 / 0, a label look-up as the labels 1 / 0)
         if np.asarray(indices).dtype.kind == 'b':
             indices = np.nonzero(np.asarray(indices))[0]
+
+        elif indexing == "label":
+            indices = ax.loc(indices, mode=mode)
 
         values = self.values.take(indices, axis=pos, mode=mode, out=out)
 
@@ -1443,6 +1444,7 @@ mismatch between values and axes""".format(inferred, self.values.shape)
         for k, val in self.iter(axis):
             if not isinstance(val, DimArray): # scalar case
                 val = DimArray(val)
+                val.attrs.update(self.attrs) # like the cross-sections that keep a dimension
             ds[k] = val
         return ds
 
